@@ -88,9 +88,12 @@ def _validate_batch(path):
         print(res.out[-3000:])
         tool_error("TLC failed on an L3 trace batch: %s" % res.error)
     bad = None
+    res.extra = []
     for tag, payload in res.printed:
         if tag == "BAD":
             bad = json.loads(payload)
+        elif tag == "EXTRA":
+            res.extra = json.loads(payload)
     if bad is None:
         print(res.out[-2000:])
         tool_error("L3 batch not fully consumed")
@@ -139,7 +142,13 @@ def l3_run(chk, name, driver="mixed", strings=600, per_string=4, kinds=None, pro
             except OSError:
                 pass
     from props import KF_BIDI
+    n_cow = 0
     for (base, _), (res, bad) in zip(batches, results):
+        n_cow += len(res.extra)
+        if res.extra and n_cow == len(res.extra):
+            e0 = json.loads(lines[base + res.extra[0] - 1])
+            chk.notes.append("L3 %s: Cow variant of a result is not 'borrowed iff borrowed argument left unchanged' (beyond the listed properties): %s"
+                             % (name, json.dumps(strip_event(e0))[:300]))
         states += res.distinct
         wall = max(wall, res.wall)
         chk.cov["states"] += res.distinct
@@ -188,7 +197,7 @@ def l3_run(chk, name, driver="mixed", strings=600, per_string=4, kinds=None, pro
     chk.cov["distinct_nontrivial"] += info["nontrivial"]
     chk.add_part("L3:" + name, {"events": info["events"], "nontrivial": info["nontrivial"], "panics": info["panics"], "batches": len(batches),
                                 "tlc_states": states, "tlc_wall_s": round(wall, 1), "corpus_strings": n_corpus, "known": known,
-                                "unexplained": n_viol, "driver": driver})
+                                "unexplained": n_viol, "driver": driver, "cow_deviations": n_cow})
     for ln in lines[:2]:
         chk.sample({"layer": "L3", "trace": name, "event": strip_event(json.loads(ln))})
     return info
